@@ -44,7 +44,8 @@ def knobs_of(shape, idx, tier, rng):
         "rot_mul": 1 if (2, 1) in xq else 0,
         "rot_pow": -1 if (1, -1) in xq else 0,
         "lookups": min(nl, 2),
-        "lookup_any": 1 if nl >= 3 else 0,
+        # (2 = a two-pair lookup_any whose highest-degree input and table expressions sit in different pairs)
+        "lookup_any": (2 if idx % 2 == 0 else 1) if nl >= 3 else 0,
         "trash": shape["ntrash"],
         "perm": 0 if pc == 0 else max(1, min(3, pc - inst - 1)),
         "seed": rng.randrange(1 << 30),
